@@ -361,6 +361,8 @@ class EnsembleSampler(MarkovChain):
             "walker_probs": self.walker_probs,
             "n_iterations": self.n_iterations,
             "total_proposals": array(self.total_proposals),
+            "failed_updates": array(self.failed_updates),
+            "chain_length": self.chain_length,
             "alpha": self.alpha,
             "max_attempts": self.max_attempts,
             "display_progress": self.display_progress,
@@ -403,6 +405,8 @@ class EnsembleSampler(MarkovChain):
         sampler.walker_probs = D["walker_probs"]
         sampler.n_iterations = int(D["n_iterations"])
         sampler.total_proposals = [list(v) for v in D["total_proposals"]]
+        sampler.failed_updates = list(D["failed_updates"]) if "failed_updates" in D else []
+        sampler.chain_length = int(D["chain_length"]) if "chain_length" in D else 0
         sampler.max_attempts = int(D["max_attempts"])
 
         if "sample" in D:
